@@ -93,6 +93,13 @@ NOTES = """Interpretation choices (soundness first):
 * Table grid: in the model every anchor cell at its (row, col) with its spans and tokens, nothing else non-empty, and
   the authored dimensions; in Markdown each row on one line; in Text only "different rows on different lines".
   Column positions inside Markdown rows are C15's subject and not asserted here.
+* Tables as grids with both kinds of spans together (family C: every 2x4 table with <= 1 horizontal and <= 2 vertical
+  merges, thorough 2x4 with 2+2 and 3x4 with 1+2): a horizontal span before / at / after the column of a vertical
+  merge, merges in the first / a middle / the last column, two merges in one row, a merge under a spanning cell.  The
+  statement promises "the table grid (including merged cells ...) as authored": text views are held to the cell texts
+  in grid order (and rows on lines); every view that exposes cells - Document()'s model table and the readers'
+  Tables() - to each source cell at its own grid position with its own row and column span; covered positions are
+  empty / continuation cells and carry no span of their own.
 * Header/footer: their tokens must never occur in any body output ("unless requested": no API requests them into the
   body; HeaderTexts()/FooterTexts() are not asserted).
 * Paragraphs without any token are not generated, so an implementation may drop or keep empty paragraphs.
